@@ -1,5 +1,6 @@
 //! cwe_conf: conformance harness.  Generates inputs, calls the REAL cwe_checker code, records
 //! ndjson traces for TLC.  It never decides a property.
+mod cfgenc;
 mod enc;
 mod guard;
 mod irenc;
@@ -7,6 +8,7 @@ mod pcodegen;
 mod elfgen;
 mod cli;
 mod par;
+mod irgen;
 mod out;
 mod props;
 mod rng;
@@ -24,7 +26,9 @@ fn main() {
         usage();
     }
     // a panic of code under test is data: silence the default hook output
-    std::panic::set_hook(Box::new(|_| {}));
+    if std::env::var_os("CWE_CONF_DEBUG").is_none() {
+        std::panic::set_hook(Box::new(|_| {}));
+    }
     let mut seed = 1u64;
     let mut tier = "quick".to_string();
     let mut outdir = String::new();
